@@ -175,6 +175,13 @@ class Build:
         try:
             if kind in ("redundant", "colour", "omp_pardo"):
                 loops = self.loops()
+                if kind == "omp_pardo":
+                    loops = [lp for lp in loops if lp.loop_type != "colours"]
+                elif kind == "colour":
+                    loops = [lp for lp in loops
+                             if lp.loop_type not in ("colours", "colour")]
+                if not loops:
+                    return "refused:notarget"
                 loop = loops[step["loop"] % len(loops)]
                 if kind == "redundant":
                     opts = {}
@@ -187,18 +194,18 @@ class Build:
                     tr.DynamoOMPParallelLoopTrans().apply(loop)
             elif kind == "omp_region":
                 kids = self.schedule.children
-                first = step["node"] % len(kids)
-                num = 1 + step.get("len", 0) % min(3, len(kids) - first)
-                nodes = kids[first:first + num]
-                for node in nodes:
-                    if not isinstance(node, Loop):
-                        return "refused:region over non-loop"
-                targets = []
-                for node in nodes:
-                    if node.loop_type == "colours":
-                        return "refused:colours loop in region"
-                    targets.append(node)
-                for loop in targets:
+                cands = [i for i, kid in enumerate(kids)
+                         if isinstance(kid, Loop) and
+                         kid.loop_type != "colours"]
+                if not cands:
+                    return "refused:notarget"
+                first = cands[step["node"] % len(cands)]
+                num = 1
+                want = 1 + step.get("len", 0) % 3
+                while num < want and first + num < len(kids) and \
+                        first + num in cands:
+                    num += 1
+                for loop in kids[first:first + num]:
                     tr.Dynamo0p3OMPLoopTrans().apply(loop)
                 kids = self.schedule.children
                 tr.OMPParallelTrans().apply(kids[first:first + num])
@@ -235,9 +242,7 @@ class Build:
         status = self._apply(step)
         if status == "ok":
             self.accepted.append(step)
-        elif not status.startswith("refused:notarget") and \
-                status != "refused:region over non-loop" and \
-                status != "refused:colours loop in region":
+        elif not status.startswith("refused:notarget"):
             # the tree may have been modified before the refusal
             self.rebuild()
         return status
@@ -297,7 +302,11 @@ def evaluate(case, stats=None):
         for step in case["history"]:
             if len(build.accepted) >= MAX_ACCEPTED:
                 break
-            statuses.append(build.step(step).split(":")[0] + ":" + step["t"])
+            status = build.step(step)
+            if status.startswith("error:"):
+                statuses.append(f"error:{step['t']}:{status[6:]}")
+            else:
+                statuses.append(status.split(":")[0] + ":" + step["t"])
         nloops, nhx = build.counts()
         status, text = build.generate()
         if status != "ok":
@@ -446,6 +455,9 @@ def run(ctx):
         ctx.label("states_exhaustive" if info["exhaustive"]
                   else "states_sampled")
         ctx.label(f"mesh_{info['mesh']}")
+        for stat in info["statuses"]:
+            if stat.startswith("error:"):
+                ctx.label(stat)
         if any(a.get("st") for c in spec["calls"] if c["kind"] == "kern"
                for a in c["args"]):
             ctx.label("has_stencil")
@@ -463,8 +475,8 @@ def run(ctx):
             _, bucket, msg, _ = res
             ctx.fail(bucket, case_dict(case, info, msg), msg)
 
-    ctx.hyp(prop, cases(), max_examples=ctx.scale(700, 25000),
-            key=lambda case: case, shrink_budget=150)
+    ctx.hyp(prop, cases(), max_examples=ctx.scale(560, 20000),
+            key=lambda case: case, shrink_budget=30)
 
 
 def replay(case):
